@@ -3,8 +3,8 @@ Model of pkg/curl (curl.go, transform.go): the batched, bit-sliced Curl-P-81.
 `uint` is `BitVec 64`; the two 729-word planes are `Vector (BitVec 64) 729`.  Every array access
 the Go code performs goes through `rd`/`wr`, which return `none` when the index is out of range
 (a Go run-time panic), so "no out-of-range access" is a theorem about this model, not an artefact.
-The same code is vendored as iota.go/curl/bct (used by pkg/pow); Tie/Curl checks the two copies
-are textually identical.  Core Lean only.
+(pkg/pow uses iota.go's own batched sponge `curl/bct`, which is a different implementation and an external
+dependency; nothing here is about it.)  Core Lean only.
 -/
 namespace Iota.Curl
 
@@ -109,6 +109,13 @@ structure Curl where
   direction : Direction
 
 def onesPlane : Plane := Vector.replicate 729 allOnes
+
+/-- `Clone`: `&Curl{l: c.l, h: c.h, direction: c.direction}` — Go arrays are values, so the two 729-word arrays
+are copied, not shared. -/
+def Curl.clone (c : Curl) : Curl := { l := c.l, h := c.h, direction := c.direction }
+
+/-- `CopyState(l, h)`: the two planes copied out. -/
+def Curl.copyState (c : Curl) : Plane × Plane := (c.l, c.h)
 
 /-- `Reset` / `NewCurlP81`. -/
 def init : Curl := { l := onesPlane, h := onesPlane, direction := .absorbing }
